@@ -18,7 +18,8 @@ import numpy as np
 import sim  # noqa: F401
 from sim import build
 from sim.core import attempt, exc_tag
-from sim.oracle import arrays_equal, carry_over, first_diff, hist_arrays, locate, missed_tuple, num_equal
+from sim.oracle import (arrays_equal, carry_over, first_diff, hist_arrays, locate, missed_tuple, num_equal,
+                        wellformed_problems)
 
 PROPERTY = "C04"
 LEVEL = "exploration"
@@ -287,6 +288,10 @@ def execute(plan, ctx):
         """Invariants after one event that delivered `step_entries` (indices)."""
         total_w = sum(wt(i) for i in bag)
         scale = sum(abs(wt(i)) for i in bag) + 1.0
+        probs = wellformed_problems(h)
+        if probs:
+            ctx.violation("C04/well-formed", f"C04/malformed/{kind}/{what}",
+                          f"after {what}: the histogram is inconsistent with itself: {probs}; bins={h.bins!r}"[:1500])
         if not num_equal(h.total, total_w, exact=exact, scale=scale):
             ctx.violation("C04/conservation", f"C04/total!=entered/{kind}/{what}",
                           f"after {what}: total={h.total!r} but {total_w!r} was entered ({len(bag)} entries); "
